@@ -98,11 +98,44 @@ def _neg(e):
     return None
 
 
+def _all_returns(fi):
+    """Every returned expression of a function made of assignments to locals, tests and returns only (fast paths with a fall-back), each with
+    the locals assigned on its own path inlined; None when the body has any other kind of statement."""
+    out = []
+
+    def walk(block, env):
+        env = dict(env)
+        for st in block:
+            if isinstance(st, ast.Expr) and isinstance(st.value, (ast.Constant, ast.Call)):
+                continue
+            if isinstance(st, ast.Assign) and len(st.targets) == 1 and isinstance(st.targets[0], ast.Name):
+                env[st.targets[0].id] = _subst(st.value, env)
+                continue
+            if isinstance(st, ast.If):
+                if not walk(st.body, env) or not walk(st.orelse, env):
+                    return False
+                continue
+            if isinstance(st, ast.Return) and st.value is not None:
+                out.append(_subst(st.value, env))
+                return True
+            return False
+        return True
+    return out if (walk(fi.node.body, {}) and out) else None
+
+
 def absmax_operand(fi):
-    """Name of the parameter whose absolute maximum fi returns (by a recognised idiom), else None."""
+    """Name of the parameter whose absolute maximum fi returns (by a recognised idiom) on every path, else None."""
     e = _inline(fi)
     if e is None:
-        return None
+        rs = _all_returns(fi)
+        if not rs or len(rs) < 2:
+            return None
+        ops = [_absmax_of(r_, fi) for r_ in rs]
+        return ops[0] if (ops[0] is not None and all(o == ops[0] for o in ops)) else None
+    return _absmax_of(e, fi)
+
+
+def _absmax_of(e, fi):
     x = None
     # A / A'
     if isinstance(e, ast.Call) and _callname(e) in ("max", "maximum") and len(e.args) == 2 and not e.keywords:
